@@ -98,6 +98,26 @@ elif mode == 'badbytes':
             out.append({'outcome': 'io-error', 'msg': str(e)[:60]})
         except BaseException as e:
             out.append({'outcome': 'raw-exception', 'exc': type(e).__name__})
+elif mode == 'badbytes-stdin':
+    # the table arrives on stdin (query_csv(input_path=None)) and the interpreter's stdin has the given error handler
+    # (CPython itself uses surrogateescape under the C/POSIX locale and in UTF-8 mode): the handler of the stream RBQL is
+    # given must not decide whether bad bytes are reported
+    import tempfile, shutil
+    d = tempfile.mkdtemp(prefix='rbqlverif_stdin_')
+    saved = sys.stdin
+    try:
+        for data, errors, pol, query in arg:
+            sys.stdin = io.TextIOWrapper(io.BytesIO(bytes(data)), encoding='utf-8', errors=errors)
+            try:
+                rbql_csv.query_csv(query, None, ',', pol, os.path.join(d, 'out.csv'), ',', pol, 'utf-8', [], False)
+                out.append({'outcome': 'returned', 'output': open(os.path.join(d, 'out.csv'), 'rb').read()[:60].hex()})
+            except rbql_engine.RbqlIOHandlingError as e:
+                out.append({'outcome': 'io-error', 'msg': str(e)[:60]})
+            except BaseException as e:
+                out.append({'outcome': 'raw-exception', 'exc': type(e).__name__ + ': ' + str(e)[:80]})
+    finally:
+        sys.stdin = saved
+        shutil.rmtree(d, ignore_errors=True)
 elif mode == 'fds':
     import tempfile, shutil
     d = tempfile.mkdtemp(prefix='rbqlverif_fd_')
@@ -210,6 +230,26 @@ def bad_bytes_check(res, tier):
                                        'policy': it[2], 'observed': o, 'case_key': 'C15|badbyte|%s|%d|%s' % (bytes(it[0]).hex(), it[1], it[2])})
     res.count('bad_byte_runs', len(items))
     res.count('bad_byte_failures', nbad)
+    # the same through stdin whose own error handler is lenient
+    items = []
+    for pos in (0, 1, 6, len(base) // 2, len(base) - 1, len(base)):
+        data = base[:pos] + b'\xff' + base[pos:]
+        for errors in ('strict', 'surrogateescape', 'replace', 'ignore', 'backslashreplace'):
+            for pol, query in (('quoted', 'select *'), ('quoted_rfc', 'select a1, len(a2)'), ('quoted', 'select count(*)'), ('simple', 'select top 1 a1 order by a2')):
+                items.append((list(data), errors, pol, query))
+    outs = run_impl('badbytes-stdin', items)
+    res.evaluations += len(items)
+    n2 = 0
+    for it, o in zip(items, outs):
+        res.nontrivial.add(('badbyte-stdin', bytes(it[0]), it[1], it[2], it[3]))
+        if o.get('outcome') != 'io-error':
+            n2 += 1
+            if n2 <= 3:
+                res.violations.append({'property': 'C15', 'impl': 'py', 'why': 'an invalid UTF-8 byte arriving on stdin (error handler of sys.stdin: %s) did not produce an IO-handling error' % it[1],
+                                       'bytes': it[0], 'stdin_errors': it[1], 'policy': it[2], 'query': it[3], 'observed': o,
+                                       'case_key': 'C15|badbyte-stdin|%s|%s|%s|%s' % (bytes(it[0]).hex(), it[1], it[2], it[3])})
+    res.count('bad_byte_stdin_runs', len(items))
+    res.count('bad_byte_stdin_failures', n2)
 
 
 def bad_bytes_check_js(res, tier):
